@@ -246,6 +246,11 @@ type c19Flow struct {
 	groups   map[string][]*c19Pred
 	seeds    map[string]bool
 	seedRoot map[types.Object]bool
+	// guardSeed: seeds that are relevant only because a condition on the way to a goal mentions them (rank 1 when
+	// the predicate set has to be cut down to the limit; the terms of the goals themselves have rank 0)
+	guardSeed map[string]bool
+	inGuard   bool
+	dropped   int // predicates left out because more than the limit were relevant (the farthest from the goals)
 
 	ghostInit uint32
 	ghost     func(sn *c19SNode, st uint32) []uint32
@@ -264,7 +269,7 @@ type c19Flow struct {
 func c19NewFlow(c *Ctx, fi *FuncInfo, bounds c19Bounds, allow func(*FuncInfo) bool) *c19Flow {
 	g := c19Graph(c, fi)
 	fl := &c19Flow{c: c, fi: fi, g: g, info: g.Info, bounds: bounds, allow: allow, rootPos: map[Loc]c19Pos{}, inlined: map[*ast.CallExpr]bool{},
-		all: map[string]*c19Pred{}, groups: map[string][]*c19Pred{}, seeds: map[string]bool{}, seedRoot: map[types.Object]bool{},
+		all: map[string]*c19Pred{}, groups: map[string][]*c19Pred{}, seeds: map[string]bool{}, seedRoot: map[types.Object]bool{}, guardSeed: map[string]bool{},
 		feas: map[uint32]bool{}, queries: map[string]*c19Query{}, bcache: map[string][2]float64{}}
 	root := &c19Frame{fi: fi, g: g}
 	_, exits := fl.buildFrame(root)
@@ -1049,6 +1054,13 @@ func (fl *c19Flow) goal(f *c19Form) *c19Form {
 	f.preds(ps)
 	for p := range ps {
 		for _, t := range p.terms {
+			if fl.inGuard {
+				if !fl.seeds[t.id] {
+					fl.guardSeed[t.id] = true
+				}
+			} else {
+				delete(fl.guardSeed, t.id)
+			}
 			fl.seeds[t.id] = true
 		}
 	}
@@ -1062,11 +1074,13 @@ func (fl *c19Flow) goal(f *c19Form) *c19Form {
 // predicates may be correlated with the goal only through control flow).
 func (fl *c19Flow) goalAt(f *c19Form, p c19Pos) *c19Form {
 	fl.goal(f)
+	fl.inGuard = true
 	for _, gd := range fl.guards(p) {
 		if gf := fl.formOf(gd.b); gf != nil {
 			fl.goal(gf)
 		}
 	}
+	fl.inGuard = false
 	return f
 }
 
@@ -2072,13 +2086,75 @@ func (fl *c19Flow) solve() {
 			continue // too many predicates: follow fewer links from the goals
 		}
 		if len(keys) > maxBits {
-			fl.err = fmt.Sprintf("%d predicates relevant in %s (limit %d)", len(keys), fl.fi.Name, maxBits)
-			if os.Getenv("C19_DEBUG") != "" {
-				for _, k := range keys {
-					fl.err += "\n    " + fl.all[k].String()
+			// Too many even without following any condition: the predicate set is sliced for the goals. Every
+			// subset of the predicates is a sound abstraction (what is not tracked is unknown), so the ones
+			// farthest from the goals are left out: rank 0 the terms of the goals, 1 the terms of the conditions
+			// on the way to them, +1 for every definition that has to be followed to reach a term.
+			rank := map[string]int{}
+			for id := range fl.seeds {
+				if fl.guardSeed[id] {
+					rank[id] = 1
+				} else {
+					rank[id] = 0
 				}
 			}
-			return
+			for changed := true; changed; {
+				changed = false
+				for _, ln := range links {
+					r, ok := rank[ln.lhsID]
+					if !ok {
+						continue
+					}
+					for _, id := range ln.ids {
+						if old, seen := rank[id]; !seen || old > r+1 {
+							rank[id] = r + 1
+							changed = true
+						}
+					}
+				}
+			}
+			prank := func(k string) int {
+				r := 0
+				for _, t := range fl.all[k].terms {
+					if tr, ok := rank[t.id]; !ok {
+						r = 1 << 20
+					} else if tr > r {
+						r = tr
+					}
+				}
+				return r
+			}
+			ppos := func(k string) token.Pos { // where the predicate's terms are written (ties between equal texts)
+				var m token.Pos
+				for _, t := range fl.all[k].terms {
+					if t.ex != nil && t.ex.Pos().IsValid() && (m == 0 || t.ex.Pos() < m) {
+						m = t.ex.Pos()
+					}
+				}
+				return m
+			}
+			sort.Slice(keys, func(i, j int) bool {
+				ri, rj := prank(keys[i]), prank(keys[j])
+				if ri != rj {
+					return ri < rj
+				}
+				si, sj := fl.all[keys[i]].String(), fl.all[keys[j]].String()
+				if si != sj {
+					return si < sj
+				}
+				if pi, pj := ppos(keys[i]), ppos(keys[j]); pi != pj {
+					return pi < pj
+				}
+				return keys[i] < keys[j]
+			})
+			if os.Getenv("C19_DEBUG") != "" {
+				fmt.Fprintf(os.Stderr, "C19 %s: %d predicates relevant (limit %d); left out:\n", fl.fi.Name, len(keys), maxBits)
+				for _, k := range keys[maxBits:] {
+					fmt.Fprintf(os.Stderr, "    [rank %d] %s\n", prank(k), fl.all[k])
+				}
+			}
+			fl.dropped = len(keys) - maxBits
+			keys = keys[:maxBits]
 		}
 		sort.Slice(keys, func(i, j int) bool {
 			si, sj := fl.all[keys[i]].String(), fl.all[keys[j]].String()
@@ -2207,7 +2283,11 @@ func (fl *c19Flow) prove(rule, key string, pos token.Pos, p c19Pos, f *c19Form, 
 	}
 	ok, wit := fl.holds(sts, f)
 	if ok {
-		c.ok(rule, key, pos, "%s holds in all %d abstract states reaching the site (predicates tracked: %d)", what, len(sts), len(fl.tracked))
+		note := ""
+		if fl.dropped > 0 {
+			note = fmt.Sprintf(", the %d farthest from the goal left out", fl.dropped)
+		}
+		c.ok(rule, key, pos, "%s holds in all %d abstract states reaching the site (predicates tracked: %d%s)", what, len(sts), len(fl.tracked), note)
 		return true
 	}
 	c.bad(rule, key, pos, "%s is not established on every path to the site (%s reachable with %s): %s", what, f, wit, consequence)
